@@ -86,7 +86,7 @@ func c14Scripted(r *Run, idx int) {
 	rng := r.Rng(int64(14000 + idx))
 	for _, kind := range []string{"hybrid", "hybrid-loading"} {
 		for _, name := range []string{"update-after-promotion", "update-after-promotion-then-dropped-handoff", "delete-while-only-in-secondary", "ttl-passes-while-demoted",
-			"update-while-demoted", "delete-after-promotion", "ttl-less-value-survives-demotion"} {
+			"update-while-demoted", "delete-after-promotion", "ttl-less-value-survives-demotion", "get-during-slow-delete-of-demoted-key", "ttl-passes-while-demoted-and-cached-clock-lags"} {
 			c14RunScript(r, idx, kind, name, rng)
 		}
 	}
@@ -284,6 +284,70 @@ func c14RunScript(r *Run, idx int, kind, name string, rng *rand.Rand) {
 		if v, ok := get(); ok && v == v1 {
 			fail("served-expired/from-secondary-tier", fmt.Sprintf("Get returned %d one second after its TTL of %v had passed while it was demoted", v, ttl))
 		}
+	case "ttl-passes-while-demoted-and-cached-clock-lags":
+		// as above, but the cache's once-a-second cached clock has not caught up yet (it lags by less than the 30 s
+		// the read path tolerates - a longer lag is C03's subject): the deadline must be judged by the real clock
+		ttl := time.Duration(3+rng.Intn(20)) * time.Second
+		a.set(k, v1, 1, ttl)
+		step("SetWithTTL(%d, %d, %v)", k, v1, ttl)
+		settled = demote()
+		st.VerifRefreshClock()
+		st.VerifShiftClock(ttl+time.Second, true)
+		step("virtual time +%v, cached clock not yet refreshed (lag %v)", ttl+time.Second, time.Duration(st.VerifNowNano()-st.VerifNowCached()).Round(time.Millisecond))
+		lag := st.VerifNowNano() - st.VerifNowCached()
+		v, ok := get()
+		if lag2 := st.VerifNowNano() - st.VerifNowCached(); lag2 < lag-int64(time.Second)/2 || lag >= int64(30*time.Second) {
+			// the ticker refreshed the cached clock in between: the lagging-clock arm did not take place
+			r.Count("cached_clock_refreshed_before_the_read", 1)
+		} else {
+			r.Count("reads_with_lagging_cached_clock", 1)
+		}
+		if ok && v == v1 {
+			fail("served-expired/from-secondary-tier/cached-clock-lagging", fmt.Sprintf("Get returned %d one second after its TTL of %v had passed while it was demoted (cached clock %v behind)", v, ttl, time.Duration(lag).Round(time.Millisecond)))
+		}
+	case "get-during-slow-delete-of-demoted-key":
+		// The key lives in the secondary tier only; its Delete is slow inside the secondary store. A Get of the key
+		// issued meanwhile may be answered either way, but once the Delete has returned the value must be gone from
+		// both tiers. Every wait is bounded and only paces the scenario: the verdict is the final Get.
+		a.set(k, v1, 1, 0)
+		step("Set(%d, %d)", k, v1)
+		settled = demote()
+		gate := make(chan struct{})
+		a.sec.mu.Lock()
+		a.sec.delGate = gate
+		a.sec.mu.Unlock()
+		delDone, getDone := make(chan struct{}), make(chan struct{})
+		go func() { _ = a.del(k); close(delDone) }()
+		for i := 0; i < 20000 && a.sec.inDel.Load() == 0; i++ {
+			time.Sleep(50 * time.Microsecond)
+		}
+		inside := a.sec.inDel.Load() > 0
+		var gv int64
+		var gok bool
+		go func() {
+			v, ok, err := a.get(context.Background(), k)
+			gv, gok = v, ok && err == nil
+			close(getDone)
+		}()
+		early := false
+		select {
+		case <-getDone:
+			early = true
+		case <-time.After(20 * time.Millisecond):
+		}
+		a.sec.mu.Lock()
+		a.sec.delGate = nil
+		a.sec.mu.Unlock()
+		close(gate)
+		<-delDone
+		<-getDone
+		step("Delete(%d) held inside the secondary store's Delete: %v; concurrent Get -> (%d, %v), returned while the Delete was still held: %v; Delete returned", k, inside, gv, gok, early)
+		if early {
+			r.Count("gets_answered_during_a_held_delete", 1)
+		}
+		if v, ok := get(); ok && !(a.loading() && v >= 9_000_000) {
+			fail("stale-read/get-after-delete/promoted-during-the-delete", fmt.Sprintf("Get returned %d after Delete had completed (a concurrent Get had promoted the key while the Delete was between the two tiers)", v))
+		}
 	case "update-while-demoted":
 		a.set(k, v1, 1, 0)
 		step("Set(%d, %d)", k, v1)
@@ -376,6 +440,7 @@ func c14History(r *Run, idx int) {
 		frng := rand.New(rand.NewSource(rng.Int63()))
 		a.sec.fail = func(op string, n int64) bool { return frng.Intn(100) < cfg.FailPct }
 	}
+	a.sec.slow.Store(cfg.Slow)
 	logs := make([][]hop, cfg.Clients+1)
 	var wg, clients sync.WaitGroup
 	start := make(chan struct{})
